@@ -100,6 +100,19 @@ def entry_points(text, doc, ctx=None, reference=None):
         "shared-parts document": lambda: jsonpath.compile(text).findall(interned(deep(doc)), **kw),
         "shared-parts document, fresh environment": lambda: env.findall(text, interned(deep(doc)), **kw),
     }
+    if isinstance(doc, (dict, list)):
+        import json as _json
+        jtxt = _json.dumps(doc)
+
+        def text_twice():
+            # the document as JSON TEXT; what the first evaluation returned is then edited by the caller (its containers
+            # emptied, the root too); the same text evaluated again denotes the same document
+            first = jsonpath.findall("$..*", jtxt) + jsonpath.findall("$", jtxt) + jsonpath.findall(text, jtxt, **kw)
+            for v in first:
+                if isinstance(v, (dict, list)):
+                    v.clear()
+            return jsonpath.findall(text, jtxt, **kw)
+        routes["JSON text, after the results of an earlier evaluation of the same text were edited"] = text_twice
     diff = {}
     for name, f in routes.items():
         got = values(f)
